@@ -223,6 +223,9 @@ func CaseLabels(c *Case, v *VResult) map[string]bool {
 		if ii.Zones.CtorCycle {
 			l["zone-ctor-cycle"] = true
 		}
+		if ii.Zones.GraphCyclic {
+			l["zone-graph-cyclic"] = true
+		}
 		if len(ii.RanOK) >= 3 {
 			l["invoke-ran>=3"] = true
 		}
@@ -248,4 +251,211 @@ func countTrue(l map[string]bool, names ...string) int {
 		}
 	}
 	return n
+}
+
+// ModelLabels derives labels that need the final registration model.
+func ModelLabels(c *Case, v *VResult, l map[string]bool) {
+	m := v.M
+	for k, on := range v.Labels {
+		if on {
+			l[k] = true
+		}
+	}
+	for _, d := range v.DupPred {
+		if d != "" {
+			l["dup-attempt"] = true
+		}
+	}
+	for _, f := range m.Fns {
+		if f.Kind == KDeco && f.OkExec >= 0 {
+			l["deco-executed"] = true
+		}
+	}
+	{
+		soft, hard := map[MKey]bool{}, map[MKey]bool{}
+		for _, op := range c.Ops {
+			if op.F == nil {
+				continue
+			}
+			for _, lf := range leavesOf(op.F.P) {
+				if lf.IsGroup && lf.Soft {
+					soft[lf.Key] = true
+				} else if lf.IsGroup {
+					hard[lf.Key] = true
+				}
+			}
+		}
+		for k := range soft {
+			if hard[k] {
+				l["soft-and-hard"] = true
+			}
+		}
+	}
+	// same key provided at two levels of one root path
+	type home struct{ k MKey; s int }
+	provHomes := map[MKey][]int{}
+	feederHomes := map[MKey]map[int]int{}
+	for _, sc := range m.Scopes {
+		for _, f := range sc.Ctors {
+			seen := map[MKey]bool{}
+			for _, k := range f.Keys() {
+				if seen[k] {
+					continue
+				}
+				seen[k] = true
+				if k.Group != "" {
+					if feederHomes[k] == nil {
+						feederHomes[k] = map[int]int{}
+					}
+					feederHomes[k][f.Home]++
+				} else {
+					provHomes[k] = append(provHomes[k], f.Home)
+				}
+			}
+		}
+	}
+	for _, hs := range provHomes {
+		for i := range hs {
+			for j := range hs {
+				if i != j && hs[i] != hs[j] && m.IsAnc(hs[i], hs[j]) {
+					l["same-key-2-levels"] = true
+				}
+			}
+		}
+		if len(hs) >= 2 {
+			l["same-key-2-scopes"] = true
+		}
+	}
+	for _, hm := range feederHomes {
+		n := 0
+		for _, c := range hm {
+			n += c
+		}
+		if n >= 3 && len(hm) >= 2 {
+			l["feeders>=3-in-2-scopes"] = true
+		}
+		if n >= 3 {
+			l["feeders>=3"] = true
+		}
+	}
+	// decorator shapes
+	decoScopes := map[MKey][]int{}
+	for _, sc := range m.Scopes {
+		for _, d := range sc.DecoL {
+			ks := d.Keys()
+			if len(ks) >= 2 {
+				l["deco-multi"] = true
+			}
+			for _, k := range ks {
+				if k.Group != "" {
+					l["deco-group"] = true
+				}
+				decoScopes[k] = append(decoScopes[k], sc.Idx)
+			}
+		}
+	}
+	for _, ss := range decoScopes {
+		for i := range ss {
+			for j := range ss {
+				if i != j && m.IsAnc(ss[i], ss[j]) {
+					l["deco-chain"] = true
+				}
+			}
+		}
+	}
+	seenInvoke := false
+	groupRequested := map[MKey]int{} // 1 requested, 2 feeder added after a request
+	for _, op := range c.Ops {
+		if op.F == nil {
+			continue
+		}
+		switch op.K {
+		case OpInvoke:
+			seenInvoke = true
+			for _, lf := range leavesOf(op.F.P) {
+				if lf.IsGroup && !lf.Soft {
+					if groupRequested[lf.Key] == 2 {
+						l["feeder-between-requests"] = true
+					}
+					if groupRequested[lf.Key] == 0 {
+						groupRequested[lf.Key] = 1
+					}
+				}
+			}
+		case OpDecorate:
+			if seenInvoke && m.Fns[op.F.ID] != nil {
+				l["decorate-after-invoke"] = true
+			}
+		case OpProvide:
+			if f := m.Fns[op.F.ID]; f != nil {
+				for _, k := range f.Keys() {
+					if k.Group != "" && groupRequested[k] == 1 {
+						groupRequested[k] = 2
+					}
+				}
+			}
+		}
+		// soft shapes
+		softKeys := map[MKey]bool{}
+		hardKeys := map[MKey]bool{}
+		for _, lf := range leavesOf(op.F.P) {
+			if lf.IsGroup && lf.Soft {
+				softKeys[lf.Key] = true
+			} else if lf.IsGroup {
+				hardKeys[lf.Key] = true
+			}
+		}
+		for k := range softKeys {
+			l["soft-consumer"] = true
+			if hardKeys[k] {
+				l["soft-and-hard-same-fn"] = true
+			}
+		}
+	}
+	// a soft leaf that precedes, in its object, a leaf whose producer feeds the same group
+	for _, ii := range v.Invokes {
+		fns := []*MFn{ii.Fn}
+		for _, id := range ii.Ran {
+			if g := m.Fns[id]; g != nil {
+				fns = append(fns, g)
+			}
+		}
+		for _, g := range fns {
+			for i, a := range g.Leaves {
+				if !(a.IsGroup && a.Soft) {
+					continue
+				}
+				for j, b := range g.Leaves {
+					if j <= i || b.ObjPath != a.ObjPath || b.IsGroup {
+						continue
+					}
+					if p := m.ExpectSingle(g, b.Key); p != nil && p.Fn.Kind == KCtor && p.Fn.SlotFor(a.Key) >= 0 {
+						l["soft-before-feeding-sibling"] = true
+					}
+				}
+			}
+		}
+	}
+	for _, d := range v.Demands {
+		paths := 0
+		for k := range d.Kinds {
+			if k == "single" || k == "group" || k == "deco-input" {
+				paths++
+			}
+		}
+		scopes := 0
+		for k := range d.Kinds {
+			if len(k) > 5 && k[:5] == "scope" {
+				scopes++
+			}
+		}
+		if d.N >= 3 && (paths >= 2 || scopes >= 2) {
+			l["demanded>=3-via-2-paths"] = true
+		}
+	}
+	for _, ii := range v.Invokes {
+		if ii.Bystanders >= 3 && ii.BystanderScopes >= 2 && len(ii.RanOK) >= 2 {
+			l["bystanders>=3-in-2-scopes"] = true
+		}
+	}
 }
